@@ -93,6 +93,8 @@ struct Th {
     timed_out: bool,
     /// time-outs that fired for this thread while nothing else could run
     free_timeouts: usize,
+    /// `pthread_self()` of the OS thread, once it has checked in (0 before)
+    pthread: usize,
 }
 
 #[derive(Clone, Debug)]
@@ -548,6 +550,9 @@ fn wait_turn(mut st: MutexGuard<'static, State>, tid: Tid, epoch: u64) -> MutexG
 static PROGRESS: std::sync::atomic::AtomicU64 = std::sync::atomic::AtomicU64::new(0);
 static IN_EXECUTION: std::sync::atomic::AtomicBool = std::sync::atomic::AtomicBool::new(false);
 const STALL_SECS: u64 = 45;
+/// exit code of the watchdog when the process burnt `STALL_SECS` of CPU time without a scheduling point
+/// (2 = blocked in a primitive the scheduler does not own)
+pub const EXIT_CPU_BURNT: i32 = 3;
 fn watchdog() {
     static START: std::sync::Once = std::sync::Once::new();
     START.call_once(|| {
@@ -585,6 +590,7 @@ fn watchdog() {
                         };
                         if burnt > Duration::from_secs(STALL_SECS) {
                             eprintln!("detsched: {STALL_SECS} s of CPU time spent without reaching a scheduling point (running thread: {who}): unbounded computation in the code under test; no verdict is possible from here");
+                            std::process::exit(EXIT_CPU_BURNT);
                         } else {
                             eprintln!("detsched: no thread runnable and no scheduling point reached for {STALL_SECS} s (token holder: {who}): the code under test blocks in a primitive the scheduler does not own (a timed sleep, a foreign thread, ...); no verdict is possible");
                         }
@@ -658,6 +664,7 @@ pub fn point(op: Op) {
                 st = sched().cv.wait(st).unwrap_or_else(|e| e.into_inner());
             };
             ME.with(|m| m.set(Some((epoch, tid))));
+            st.threads[tid].pthread = unsafe { libc::pthread_self() } as usize;
             EXIT_GUARD.with(|_| ());
             drop(wait_turn(st, tid, epoch));
             return;
@@ -729,6 +736,50 @@ pub fn futex_wait(addr: usize, val: u32) -> Option<()> {
             loop {
                 std::thread::sleep(Duration::from_secs(3600));
             }
+        }
+    }
+}
+fn note_pthread(epoch: u64, tid: Tid) {
+    let me = unsafe { libc::pthread_self() } as usize;
+    let mut st = lock();
+    if st.epoch == epoch {
+        if let Some(t) = st.threads.get_mut(tid) {
+            t.pthread = me;
+        }
+    }
+}
+
+/// `pthread_join(t)` issued by the code under test (`JoinHandle::join`, a `Drop` that joins a worker):
+/// a scheduling operation that is enabled once the model thread running on OS thread `t` has
+/// finished.  `false`: not ours (not a registered thread, or `t` is unknown to this execution) -- the
+/// caller goes on to the real join.
+thread_local! {
+    static OWN_JOIN: Cell<bool> = const { Cell::new(false) };
+}
+pub fn join_wait(pthread: usize) -> bool {
+    if std::thread::panicking() || OWN_JOIN.try_with(|f| f.get()).unwrap_or(true) {
+        return false;
+    }
+    let reg = ME.try_with(|m| m.get()).ok().flatten();
+    let target = {
+        let st = lock();
+        if !st.active || st.aborting || reg.map(|(ep, _)| ep) != Some(st.epoch) {
+            return false;
+        }
+        match st.threads.iter().position(|t| t.pthread == pthread && pthread != 0) {
+            Some(t) => t,
+            None => return false,
+        }
+    };
+    match std::panic::catch_unwind(std::panic::AssertUnwindSafe(|| point(Op::Join(target)))) {
+        Ok(()) => true,
+        Err(e) => {
+            if !e.is::<Aborted>() {
+                std::panic::resume_unwind(e);
+            }
+            // torn down while waiting: fall through to the real join -- the target is being torn down too
+            // and exits, the caller then runs on to its next scheduling point, where it unwinds
+            false
         }
     }
 }
@@ -883,7 +934,7 @@ pub fn adopt(n: usize, name: &str) {
         let (ticket, op) = st.pending.pop_front().unwrap();
         let tid = st.threads.len();
         let nm = if n == 1 { name.to_string() } else { format!("{name}{i}") };
-        st.threads.push(Th { status: Status::AtPoint(op), name: nm, harness: false, steps: 0, timed_out: false, free_timeouts: 0 });
+        st.threads.push(Th { status: Status::AtPoint(op), name: nm, harness: false, steps: 0, timed_out: false, free_timeouts: 0, pthread: 0 });
         st.adopted.push((ticket, tid));
     }
     sched().cv.notify_all();
@@ -898,7 +949,10 @@ impl<T> JoinHandle<T> {
     pub fn join(mut self) -> std::thread::Result<T> {
         point(Op::Join(self.tid));
         if let Some(h) = self.os.take() {
+            // the model-level join has just happened: the OS-level one below is not another operation
+            OWN_JOIN.with(|f| f.set(true));
             let _ = h.join();
+            OWN_JOIN.with(|f| f.set(false));
         }
         self.res.lock().unwrap().take().unwrap()
     }
@@ -914,7 +968,7 @@ pub fn spawn<T: Send + 'static>(name: &str, f: impl FnOnce() -> T + Send + 'stat
         assert!(st.active);
         let tid = st.threads.len();
         let epoch = st.epoch;
-        st.threads.push(Th { status: Status::AtPoint(Op::Start), name: name.to_string(), harness: true, steps: 0, timed_out: false, free_timeouts: 0 });
+        st.threads.push(Th { status: Status::AtPoint(Op::Start), name: name.to_string(), harness: true, steps: 0, timed_out: false, free_timeouts: 0, pthread: 0 });
         st.live_os_threads += 1;
         (tid, epoch)
     };
@@ -924,6 +978,7 @@ pub fn spawn<T: Send + 'static>(name: &str, f: impl FnOnce() -> T + Send + 'stat
         .name(name.to_string())
         .spawn(move || {
             ME.with(|m| m.set(Some((epoch, tid))));
+            note_pthread(epoch, tid);
             EXIT_GUARD.with(|_| ());
             let r = std::panic::catch_unwind(std::panic::AssertUnwindSafe(|| {
                 let st = lock();
@@ -1003,7 +1058,7 @@ pub fn run_one(prefix: &[usize], cfg: &Config, f: impl FnOnce() + Send + 'static
         st.last_tid = None;
         st.live_os_threads = 1;
         st.monitor = None;
-        st.threads.push(Th { status: Status::Running, name: "main".into(), harness: true, steps: 0, timed_out: false, free_timeouts: 0 });
+        st.threads.push(Th { status: Status::Running, name: "main".into(), harness: true, steps: 0, timed_out: false, free_timeouts: 0, pthread: 0 });
         st.current = Some(0);
     }
     // main harness thread = tid 0, on a fresh OS thread so that unwinding is contained
@@ -1011,6 +1066,7 @@ pub fn run_one(prefix: &[usize], cfg: &Config, f: impl FnOnce() + Send + 'static
         .name("harness-main".into())
         .spawn(move || {
             ME.with(|m| m.set(Some((epoch, 0))));
+            note_pthread(epoch, 0);
             EXIT_GUARD.with(|_| ());
             let r = std::panic::catch_unwind(std::panic::AssertUnwindSafe(f));
             match r {
